@@ -684,10 +684,12 @@ pub fn gen_pipe_out(rng: &mut Rng) -> Program {
     // the consumer: blocking reads and single polls at generated points
     let n_reads = g.rng.range(0, n_items as u64 + 2);
     for _ in 0..n_reads {
-        match g.rng.weighted(&[6, 3, 2]) {
+        match g.rng.weighted(&[12, 6, 4, 1]) {
             0 => t0.push({ let __k = OpKind::Next { out }; g.op(__k) }),
             1 => t0.push({ let __k = OpKind::PollNext { out }; g.op(__k) }),
-            _ => t0.push({ let __k = OpKind::Yield(g.rng.range(1, 3) as u8); g.op(__k) }),
+            2 => t0.push({ let __k = OpKind::Yield(g.rng.range(1, 3) as u8); g.op(__k) }),
+            // the consumer changes the buffer depth in the middle of the stream (possibly while the producer is throttled)
+            _ => t0.push({ let __k = OpKind::SetDepth { out, depth: g.rng.range(1, 6) as usize }; g.op(__k) }),
         }
     }
     let mut threads = vec![t0];
